@@ -95,7 +95,9 @@ def slot_expectation(func, V, lab_tuple, order, fill, min_count):
     absent = ~present
     out[:, absent] = fillarr[:, absent]
     sc[:, absent] = True
+    either = np.zeros((B, G), dtype=bool)  # cells where flox's convention allows NumPy's value OR the fill, nothing else
     if min_count is None:
+        either = present[None, :] & (cnt == 0) & scope
         sc &= ~(present[None, :] & (cnt == 0))
     else:
         below = present[None, :] & (cnt < min_count)
@@ -103,8 +105,9 @@ def slot_expectation(func, V, lab_tuple, order, fill, min_count):
         sc |= below
         if min_count == 0 and func in ("nanmax", "nanmin"):
             # flox: "setting a default fill_value even though numpy doesn't define identity for nanmin, nanmax"
+            either |= present[None, :] & (cnt == 0) & scope
             sc &= ~(present[None, :] & (cnt == 0))
-    return out, sc, present, cnt
+    return out, sc, present, cnt, either, exp.astype(float), fillarr
 
 
 def as_kind(vals, kind):
@@ -162,8 +165,14 @@ def check_point(res, func, dtype, engine, lab_tuple, exname, sort, fillname, min
         res.violate("slots-labels", case, dict(groups=out.groups[0]), dict(groups=order), tags=dict(tags, kind="labels"),
                     size=size)
         return None
-    exp, sc, present, cnt = slot_expectation(func, V, lab_tuple, order, np.nan if fill is None else fill, min_count)
+    exp, sc, present, cnt, either, numpy_exp, fillarr = slot_expectation(func, V, lab_tuple, order, np.nan if fill is None else fill, min_count)
     bad = e1.compare(out.result, exp, sc, rtol=1e-12)
+    if bad is None and either.any() and np.asarray(out.result).shape == exp.shape:
+        o = np.asarray(out.result).astype(float)
+        neither = rm.mismatch(o, numpy_exp, rtol=1e-12) & rm.mismatch(o, fillarr, rtol=1e-12) & either
+        if neither.any():
+            bad = tuple(int(i) for i in np.argwhere(neither)[0])
+            exp = np.where(either, numpy_exp, exp)
     if bad is None:
         res.outcomes["ok"] += 1
         return out
